@@ -206,14 +206,18 @@ def Queue.get (q : Queue) (seq : Int) : GetRes :=
     if e.page ∈ q.dataPages then .ok e.len else .notFound
   else .notFound
 
+/-- `NewConsumerGroup`, restore path: "if queue ack > consume group ack, need reset use queue ack" -/
+def restoredAck (qack : Int) (m : Meta) : Int := if m.ack < qack then qack else m.ack
+
+/-- `NewConsumerGroup`, restore path: the consumed position is taken from the meta page as it is
+(pinned source); with `liftConsumed` it is lifted to the restored ack when it lies below. -/
+def restoredConsumed (v : Variant) (qack : Int) (m : Meta) : Int :=
+  if v.liftConsumed = true ∧ m.consumed < restoredAck qack m then restoredAck qack m else m.consumed
+
 /-- The positions `NewConsumerGroup` computes and persists. `m` = content of an existing meta page
 (`hasMeta`), `qack` = `q.Queue().AcknowledgedSeq()`. -/
-def newGroup (v : Variant) (qack : Int) (m : Option Meta) : Meta :=
-  match m with
-  | some m =>
-    let ack := if m.ack < qack then qack else m.ack
-    let consumed := if v.liftConsumed && decide (m.consumed < ack) then ack else m.consumed
-    { consumed := consumed, ack := ack }
+def newGroup (v : Variant) (qack : Int) : Option Meta → Meta
+  | some m => { consumed := restoredConsumed v qack m, ack := restoredAck qack m }
   | none =>
     if v.freshAtQueueAck then { consumed := qack, ack := qack } else { consumed := noSeq, ack := noSeq }
 
@@ -259,11 +263,9 @@ def State.consume (s : State) (g : Nat) : State × Res :=
   | none => (s, .noGroup)
   | some grp =>
     if grp.paused then (s, .val noSeq)
-    else
-      let head := grp.consumed + 1
-      if head ≤ s.q.appended then
-        (s.putGroup g { grp with consumed := head }, .val head)
-      else (s, .val noSeq)
+    else if grp.consumed + 1 ≤ s.q.appended then
+      (s.putGroup g { grp with consumed := grp.consumed + 1 }, .val (grp.consumed + 1))
+    else (s, .val noSeq)
 
 /-- `consumerGroup.Ack` (under the read lock): inside [ack, consumed] the ack moves and both
 positions are persisted; outside nothing happens (a warning is logged). -/
@@ -277,17 +279,16 @@ def State.ackGroup (s : State) (g : Nat) (n : Int) : State × Res :=
 /-- `fanOutQueue.Sync` -/
 def State.sync (s : State) : State :=
   if s.live.isEmpty then s
-  else
-    let c := minAck s.q.appended s.live
-    if c ≥ 0 then { s with q := s.q.setAck c } else s
+  else if minAck s.q.appended s.live ≥ 0 then { s with q := s.q.setAck (minAck s.q.appended s.live) }
+  else s
 
 /-- `fanOutQueue.GetOrCreateConsumerGroup` -/
 def State.create (v : Variant) (s : State) (g : Nat) : State :=
   match lookup s.live g with
   | some _ => s
   | none =>
-    let m := newGroup v s.q.ack (lookup s.metas g)
-    { s with live := upsert s.live g m.toGroup, metas := upsert s.metas g m }
+    { s with live := upsert s.live g (newGroup v s.q.ack (lookup s.metas g)).toGroup,
+             metas := upsert s.metas g (newGroup v s.q.ack (lookup s.metas g)) }
 
 /-- `fanOutQueue.SetAppendedSeq`: the queue, then `SetSeq` on every live group -/
 def State.setAppended (s : State) (n : Int) : State :=
@@ -298,12 +299,15 @@ def State.setAppended (s : State) (n : Int) : State :=
       | some _ => (p.1, { consumed := n, ack := n })
       | none => p) }
 
+/-- the meta pages after `initConsumerGroups` (with the re-opened queue's ack `qack`) -/
+def reopenMetas (v : Variant) (qack : Int) (metas : List (Nat × Meta)) : List (Nat × Meta) :=
+  metas.map (fun p => (p.1, newGroup v qack (some p.2)))
+
 /-- `fanOutQueue.Close` then `NewFanOutQueue` on the same directory: the queue is re-read from its
 meta page, then `initConsumerGroups` runs `NewConsumerGroup` for every directory under cg/. -/
 def State.reopen (v : Variant) (s : State) : State :=
-  let q := s.q.reopen
-  let metas := s.metas.map (fun p => (p.1, newGroup v q.ack (some p.2)))
-  { q := q, metas := metas, live := metas.map (fun p => (p.1, p.2.toGroup)) }
+  { q := s.q.reopen, metas := reopenMetas v s.q.reopen.ack s.metas,
+    live := (reopenMetas v s.q.reopen.ack s.metas).map (fun p => (p.1, p.2.toGroup)) }
 
 def step (v : Variant) (s : State) : Op → State × Res
   | .append len =>
